@@ -522,6 +522,29 @@ func (s *Sim) Fail(j *Job, kind, msg string) error {
 	return fmt.Errorf("unknown failure kind %q", kind)
 }
 
+// StaleFinish makes a job of a superseded attempt write its outputs, its
+// completion marker and the journal entry, all under the names of the old
+// attempt.  The job does not count as done for the harness.
+func (s *Sim) StaleFinish(j *Job) error {
+	outs, err := s.Compute(j)
+	if err != nil {
+		return err
+	}
+	os.MkdirAll(j.MdPath, 0o755)
+	name := "_outs"
+	if j.Phase == "split" {
+		name = "_stage_defs"
+	}
+	if err := os.WriteFile(filepath.Join(j.MdPath, name), jsonx.Marshal(outs), 0o644); err != nil {
+		return err
+	}
+	if err := os.WriteFile(filepath.Join(j.MdPath, "_complete"), []byte("t"), 0o644); err != nil {
+		return err
+	}
+	os.MkdirAll(filepath.Dir(j.RunFile), 0o755)
+	return s.journal(j, "complete")
+}
+
 // Reattach does what a restarted mrp does on an existing pipestance
 // directory: a new Pipestance object is built from the same invocation,
 // failed stages are reset and local jobs that are queued or whose process is
